@@ -6,7 +6,7 @@ import translate
 
 TARGETS = ['MM', 'MM.Driver.Wire',
            'MM.Props.C08', 'MM.Props.C11', 'MM.Props.C14', 'MM.Props.C16', 'MM.Props.C17', 'MM.Props.C20',
-           'MM.Props.SearchSpec', 'MM.Props.Exhaustive', 'MM.Props.Greedy', 'MM.Props.SearchTie', 'MM.Props.ScoreTie', 'MM.Props.HeapTie', 'MM.Props.Outliers', 'MM.Props.OutliersTie', 'MM.Props.MemoTie', 'MM.Props.DiagTestsTie', 'MM.Props.WithinTie', 'MM.Props.DiagTests', 'MM.Model.DiagTests', 'MM.Props.C01Admit', 'MM.Props.C01Ids', 'MM.Props.C04Series',
+           'MM.Props.SearchSpec', 'MM.Props.Exhaustive', 'MM.Props.Greedy', 'MM.Props.SearchTie', 'MM.Props.ScoreTie', 'MM.Props.HeapTie', 'MM.Props.SizesTie', 'MM.Props.Outliers', 'MM.Props.OutliersTie', 'MM.Props.MemoTie', 'MM.Props.DiagTestsTie', 'MM.Props.WithinTie', 'MM.Props.DiagTests', 'MM.Model.DiagTests', 'MM.Props.C01Admit', 'MM.Props.C01Ids', 'MM.Props.C04Series',
            'MM.Props.C05C06', 'MM.Props.C10', 'MM.Props.C12', 'MM.Props.C19', 'MM.Props.C15', 'MM.Model.Api', 'MM.Model.Data', 'MM.Model.Screen', 'MM.Props.C07C18', 'MM.Model.Numeric', 'MM.Model.Admit']
 
 
